@@ -42,7 +42,8 @@
                    '(g_cur <= g_q && g_q < (size_t)__CPROVER_POINTER_OFFSET(ptr)) ==> !C19_CODEDELIM(g_data0[g_q])'],
     'decreases': 'g_n - (size_t)__CPROVER_POINTER_OFFSET(ptr)'},
  ],
- 'witness': {'unwind': 9},
+ 'fallback': 'ghost-free',
+ 'witness': {'unwind': 260},
  'trusted': ['strchr: contracts/c19_cxx_contracts.h (ISO C 7.24.5.2, membership in an abstract table)'],
 } @*/
 #include "c19_harness.h"
@@ -68,8 +69,16 @@ void harness(void)
     WIT_ARR(uchar, table, 256);
     C19_BLOCK(data, n, content);
     C19_STRING(delims, DL, dc, 0);
+#ifdef WITNESS_MODE
+    /* small concrete run (natively strchr is the real one): the table is what delims says */
+    for (int i = 0; i < 256; i++) g_isdelim[i] = 0;
+    g_isdelim[0] = 1;
+    for (size_t i = 0; i < DL && delims[i] != 0; i++) g_isdelim[(unsigned char)delims[i]] = 1;
+    g_all_n = 0;
+#else
     for (int i = 0; i < 256; i++) g_isdelim[i] = table[i];
     __CPROVER_assume(g_isdelim[0] != 0);
+#endif
     /* known finding: `strchr(delims, *ptr) != NULL && ptr != end` reads *ptr first: a buffer that ends in a delimiter is over-read by one byte */
     __CPROVER_assume(KF_C19_split_delims_overread == 0 ? 1 : KF_C19_split_delims_overread == 1 ? !(n >= 1 && C19_ISDELIM(data[n - 1])) : (n >= 1 && C19_ISDELIM(data[n - 1])));
     /* known finding (probe only): a NUL at the ghost position */
@@ -99,5 +108,25 @@ void harness(void)
             __CPROVER_assert(g_last_end == g_ts + g_tl, "split(delims): the last token recorded is token ntok-1");
         }
     }
+#if KF_C19_split_delims_overread == 0 && KF_C19_split_delims_nul == 0
+#ifdef WITNESS_MODE
+    /* direct reference over the (small, concrete) buffer: maximal runs of non-delimiters, in order, compared with the WHOLE recorded
+       sequence.  Depends on the recorder calls of the extracted code only, not on injected ghost statements: decides the bounded fallback run */
+    {
+        size_t rs[C19_REC_MAX], rl[C19_REC_MAX], rn = 0, pos = 0;
+        while (pos < n) {
+            while (pos < n && REFDELIM(data[pos])) pos++;
+            if (pos == n) break;
+            size_t s0 = pos;
+            while (pos < n && !REFDELIM(data[pos])) pos++;
+            if (rn < C19_REC_MAX) { rs[rn] = s0; rl[rn] = pos - s0; }
+            rn++;
+        }
+        __CPROVER_assert(g_all_n == rn, "split(delims): number of tokens of the reference tokeniser (direct reference)");
+        for (size_t i = 0; i < rn && i < g_all_n && i < C19_REC_MAX; i++)
+            __CPROVER_assert(g_all_s[i] == rs[i] && g_all_l[i] == rl[i], "split(delims): token i is the i-th maximal run of non-delimiters (direct reference)");
+    }
+#endif
+#endif
     CANARY("split(delims) end reachable");
 }
